@@ -474,6 +474,28 @@ pub fn observe(db: &RootDatabase, main: &[CrateInput], entry: Entry, contracts: 
             }
         }
         obs.push(("class_diagnostics".into(), diag2));
+        // the same contracts with every debug annotation switched on (statement -> function / code location maps,
+        // per-function debug info): settings are inputs of the property, their output must be canonical too
+        let mut diag3 = String::new();
+        let cfg = CompilerConfig {
+            diagnostics_reporter: reporter(&mut diag3, main),
+            replace_ids: true,
+            add_statements_functions: true,
+            add_statements_code_locations: true,
+            add_functions_debug_info: true,
+            ..Default::default()
+        };
+        match cairo_lang_starknet::compile::compile_prepared_db(db, &refs, cfg) {
+            Err(e) => obs.push(("class_dbg".into(), format!("ERR {e}"))),
+            Ok(classes) => {
+                let mut all = String::new();
+                for class in classes {
+                    all.push_str(&serde_json::to_string_pretty(&class.sierra_program_debug_info).unwrap_or_else(|e| format!("ERR json {e}")));
+                    all.push('\n');
+                }
+                obs.push(("class_dbg".into(), all));
+            }
+        }
     }
     obs
 }
